@@ -218,10 +218,16 @@ func (dsm *DsManager) UpdateDataset(name string, config *UpdateDatasetConfig) (*
 		if err != nil {
 			return nil, err
 		}
-		entity.IsDeleted = true
-		err = dsm.storeEntity(core, entity)
-		if err != nil {
-			return nil, err
+		if entity == nil {
+			// the dataset has no entity in core.Dataset: the hub died while the dataset was being
+			// created, after its record was stored. Nothing to mark as deleted, describe it anew.
+			entity = dsm.NewDatasetEntity(name, ds.ProxyConfig, ds.VirtualDatasetConfig, ds.PublicNamespaces)
+		} else {
+			entity.IsDeleted = true
+			err = dsm.storeEntity(core, entity)
+			if err != nil {
+				return nil, err
+			}
 		}
 		entity.IsDeleted = false
 		entity.ID = dsInfo.DatasetPrefix + ":" + newName
@@ -280,11 +286,15 @@ func (dsm *DsManager) DeleteDataset(name string) error {
 	if err2 != nil {
 		return err2
 	}
-	entity.IsDeleted = true
-	core := dsm.GetDataset(datasetCore)
-	err = dsm.storeEntity(core, entity)
-	if err != nil {
-		return err
+	// the entity is missing when the hub died while the dataset was being created (record stored,
+	// entity in core.Dataset not yet)
+	if entity != nil {
+		entity.IsDeleted = true
+		core := dsm.GetDataset(datasetCore)
+		err = dsm.storeEntity(core, entity)
+		if err != nil {
+			return err
+		}
 	}
 	dsm.eb.Emit(context.Background(), "dataset.core.Dataset", nil)
 
